@@ -159,6 +159,19 @@ static bool parse_write(const std::string& t, bool& neg, std::vector<std::pair<I
     }
 }
 
+// the first value mpz_urandomm gives below `bound` from a default GMP state seeded with `seed` -- what IntegerDom::random(g, r, bound)
+// draws right after Integer::seeding(seed) (recomputed here with a state of our own: the library's state is not read)
+static Integer draw_below(uint64_t seed, const Integer& bound) {
+    Integer r(0);
+    if (bound <= 0) return r;
+    gmp_randstate_t st;
+    gmp_randinit_default(st);
+    gmp_randseed_ui(st, (unsigned long)seed);
+    mpz_urandomm(r.get_mpz(), st, bound.get_mpz_const());
+    gmp_randclear(st);
+    return r;
+}
+
 // multi-argument cases:  "<key> a0 a1 … = …"
 static std::string callv(const std::string& key, const std::vector<Integer>& a) {
     IntFactorDom<GivRandom>& IF = *IFp;
@@ -172,6 +185,22 @@ static std::string callv(const std::string& key, const std::vector<Integer>& a) 
         return hz(g);
     }
     if (key == "pollard") { Integer g(-7); IF.Pollard(gen, g, n, (unsigned long)(uint64_t)a[1]); return hz(g); }
+    if (key == "pollards") {       // Pollard(gen, g, n, loops) right after Integer::seeding(seed); the start values it draws (one mpz_urandomm(n) per
+        uint64_t sd = (uint64_t)a[2];          // (re)try) are recomputed with a GMP state of our own:  "pollards n loops seed = k y0 … y(k-1) g"
+        const int K = 8;
+        std::string ys;
+        if (n >= 3) {
+            gmp_randstate_t st; gmp_randinit_default(st); gmp_randseed_ui(st, (unsigned long)sd);
+            for (int i = 0; i < K; ++i) { Integer y; mpz_urandomm(y.get_mpz(), st, n.get_mpz_const()); ys += " " + hz(y); }
+            gmp_randclear(st);
+        } else for (int i = 0; i < K; ++i) ys += " 0";
+        Integer::seeding(sd);
+        Integer g(-7);
+        IF.Pollard(gen, g, n, (unsigned long)(uint64_t)a[1]);
+        return vp::hex_ull(K) + ys + " " + hz(g);
+    }
+    if (key == "factorl") { Integer r(-7); IF.factor(r, n, (unsigned long)(uint64_t)a[1]); return hz(r); }                  // the overloads with a bound
+    if (key == "iffactorprimel") { Integer r(-7); std::streambuf* old = std::cerr.rdbuf(nullptr); IF.iffactorprime(r, n, (unsigned long)(uint64_t)a[1]); std::cerr.rdbuf(old); return hz(r); }   // on Pollard's loops
     if (key == "fermat") { Integer f(-7); FD.fermat(f, (size_t)(uint64_t)n); return hz(f); }
     if (key == "pepin") { return FD.pepin((size_t)(uint64_t)n) ? "1" : "0"; }
     if (key == "isprimer") return vp::hex_ll(IP.isprime(n, (int)(int64_t)a[1]));
@@ -181,6 +210,24 @@ static std::string callv(const std::string& key, const std::vector<Integer>& a) 
     if (key == "miller") return vp::hex_ull(IP.Miller(gen, n));                       // the base is drawn inside (Integer::random, global GMP state):
     if (key == "lehmann") { Integer r(-7); IP.test_Lehmann(gen, r, n); return hz(r); }   // not observable, so these are certified one-sidedly
     if (key == "lehmannb") return vp::hex_ll(IP.Lehmann(gen, n));
+    // ---- the same tests with the base they draw made observable: the library generator is seeded, the base is recomputed
+    //      "millers n seed = base v"      "lehmanns n seed = base r v"  (r = test_Lehmann's value, v = Lehmann's answer)
+    if (key == "millers") {
+        uint64_t sd = (uint64_t)a[1];
+        Integer base = n >= 4 ? draw_below(sd, n - 3) + 2 : Integer(0);
+        Integer::seeding(sd);
+        unsigned int v = IP.Miller(gen, n);
+        return hz(base) + " " + vp::hex_ull(v);
+    }
+    if (key == "lehmanns") {
+        uint64_t sd = (uint64_t)a[1];
+        Integer base = n >= 2 ? draw_below(sd, n - 1) + 1 : Integer(0);
+        Integer r(0);
+        if (n >= 2) { Integer::seeding(sd); IP.test_Lehmann(gen, r, n); }
+        Integer::seeding(sd);
+        int v = IP.Lehmann(gen, n);
+        return hz(base) + " " + hz(r) + " " + vp::hex_ll(v);
+    }
     if (key == "write") {          // write(o, Lf, n) and write(o, n): text parsed strictly, numbers handed to the driver
         std::ostringstream o1, o2;
         std::vector<Integer> Lf;
@@ -299,7 +346,7 @@ static void runv(const std::string& key, const std::vector<Integer>& a) {
     }
 }
 static bool is_vkey(const std::string& k) {
-    for (const char* v : {"lenstra", "pollard", "fermat", "pepin", "isprimer", "localprime", "tabule", "tabule2", "miller", "lehmann", "lehmannb",
+    for (const char* v : {"lenstra", "pollard", "fermat", "pepin", "isprimer", "localprime", "tabule", "tabule2", "miller", "lehmann", "lehmannb", "millers", "lehmanns", "factorl", "iffactorprimel", "pollards",
                           "write", "erat", "factorL", "setL", "divinto", "divalias", "setinto", "set1into", "eratinto", "writeinto"}) if (k == v) return true;
     return false;
 }
@@ -398,6 +445,13 @@ static void gen(const std::string& tier, uint64_t seed) {
         if ((i & 7) == 0) fa.push_back(p * q * Integer((uint64_t)SP[g.below(NSP)]));
         if ((i & 15) == 0) fa.push_back(p);
     }
+    for (int i = 0; i < (th ? 12 : 4); ++i) {          // two primes near 2^32 (n near 2^64), squares of such primes, primes around the table boundary 2^16
+        Integer p = gmp_nextprime(pw(Integer(2), 32) - Integer((uint64_t)g.below(1u << 14)));
+        Integer q = gmp_nextprime(pw(Integer(2), 32) + Integer((uint64_t)g.below(1u << 14)));
+        fa.push_back(p * q); fa.push_back(p * p);
+        if (i == 0) { fa.push_back(q * q); fa.push_back(p * q * 2); fa.push_back(p * p * 9); }
+    }
+    for (const char* t : {"4293001441", "4295098369", "4294049777", "4611686014132420609", "9223372030412324863", "18446744030759878681"}) fa.push_back(Integer(t));   // 65521^2, 65537^2, 65521*65537, (2^31-1)^2, (2^31-1)*(2^32-5), (2^32-5)^2
     fa.push_back(Integer("18446744073709551617"));   // F6 = 274177 * 67280421310721
     fa.push_back(Integer("1208907372870555465154561"));
     size_t nf = fa.size();
@@ -413,6 +467,12 @@ static void gen(const std::string& tier, uint64_t seed) {
         run("divisors", n);
         run("set1", n);
     }
+    // factor / iffactorprime with an explicit bound on Pollard's loops (0 = unbounded, the default argument)
+    for (size_t i = 0; i < fa.size(); i += (th ? 2 : 7))
+        for (unsigned long loops : {0UL, 1UL, 3UL, 100UL, 100000UL}) if (!heavy(fa[i])) {
+            runv("factorl", {fa[i], Integer((uint64_t)loops)});
+            runv("iffactorprimel", {fa[i], Integer((uint64_t)loops)});
+        }
     // the loops-bounded variant: small bounds make Pollard give up (partial contract), large ones complete
     for (size_t i = 0; i < fa.size(); i += (th ? 3 : 11))
         for (unsigned long loops : {1UL, 2UL, 3UL, 7UL, 40UL, 5000UL}) if (!heavy(fa[i])) run_setl(fa[i], loops);
@@ -455,6 +515,17 @@ static void gen(const std::string& tier, uint64_t seed) {
     }
     for (size_t i = 0; i < big.size(); i += (th ? 3 : 17)) for (const char* k : {"miller", "lehmann", "lehmannb"}) runv(k, {big[i]});
     fflush(stdout);
+    // ---- Miller / Lehmann with the base observable (generator seeded per case, base recomputed): small n with so many seeds that every
+    //      base of [2,n-2] resp. [1,n-1] is drawn (liars included); the guards n < 4; strong pseudoprimes / Carmichael numbers / the 64-bit grid
+    // (each case costs two or three seedings of GMP's Mersenne twister, ~1 ms under the sanitizers: the counts are sized for that)
+    for (long n = -3; n < (th ? 600 : 200); ++n) {
+        long reps = n < 4 ? 2 : (n < 40 ? 5 * n : (th ? 30 : 14));
+        for (long sd = 0; sd < reps; ++sd) for (const char* k : {"millers", "lehmanns"}) runv(k, {Integer((int64_t)n), Integer((int64_t)(sd * 7919 + n + 10))});
+    }
+    for (auto s : PSP) for (int sd = 0; sd < (th ? 60 : 24); ++sd) for (const char* k : {"millers", "lehmanns"}) runv(k, {Integer(s), Integer((uint64_t)g.below(1u << 30))});
+    for (auto s : CARMICHAEL) for (int sd = 0; sd < (th ? 60 : 24); ++sd) for (const char* k : {"millers", "lehmanns"}) runv(k, {Integer(s), Integer((uint64_t)g.below(1u << 30))});
+    for (size_t i = 0; i < big.size(); i += (th ? 4 : 7)) for (const char* k : {"millers", "lehmanns"}) runv(k, {big[i], Integer((uint64_t)g.below(1u << 30))});
+    fflush(stdout);
     // ---- Pollard and Lenstra called directly; write; the sieve variant
     for (size_t i = 0; i < fa.size(); i += (th ? 2 : 5)) {
         const Integer& n = fa[i];
@@ -466,10 +537,21 @@ static void gen(const std::string& tier, uint64_t seed) {
             Integer g1, g2;
             bool dom = n < 3 || (isOne(gcd(g1, n, Integer(223092870))) && isOne(gcd(g2, n, Integer("10334565887047481278774629361"))));
             if (dom) for (unsigned long loops : {0UL, 1UL, 3UL, 100UL}) runv("pollard", {n, Integer((uint64_t)loops)});
+            // the same with the generator seeded, so that the start values of the rho iteration are known to the model
+            if (dom) for (unsigned long loops : {0UL, 1UL, 2UL, 3UL, 4UL, 5UL, 9UL, 17UL, 100UL, 100000UL}) runv("pollards", {n, Integer((uint64_t)loops), Integer((uint64_t)g.below(1u << 30))});
         }
         runv("lenstra", {n, Integer(2000), Integer(8)});
         if ((i % 3) == 0) runv("lenstra", {n, Integer(30), Integer(2)});       // a bound so small that the documented failure value is produced
         runv("write", {n});
+    }
+    {   // rho on every product of two primes of {101 … 199} (squares included: the iteration fails with g = n for some starts and is retried),
+        // several seeds and bounds each
+        const unsigned long R[] = {101, 103, 107, 109, 113, 127, 131, 137, 139, 149, 151, 157, 163, 167, 173, 179, 181, 191, 193, 197, 199};
+        for (unsigned long p1 : R) for (unsigned long p2 : R) if (p1 <= p2 && (th || ((p1 + p2) % 3 == 0) || p1 == p2))
+            for (int sd = 0; sd < (th ? 6 : 2); ++sd)
+                for (unsigned long loops : {0UL, 2UL, 6UL, 40UL}) runv("pollards", {Integer((uint64_t)(p1 * p2)), Integer((uint64_t)loops), Integer((uint64_t)g.below(1u << 30))});
+        for (unsigned long p1 : R) runv("pollards", {Integer((uint64_t)p1), Integer(0), Integer(5)});       // primes: returned as they are
+        for (long n = -3; n < 3; ++n) runv("pollards", {Integer((int64_t)n), Integer(0), Integer(5)});       // n < 3
     }
     for (int i = 0; i < (th ? 200 : 40); ++i) {        // Lenstra on semiprimes / prime squares / primes of 20..80 bits
         unsigned b1 = 10 + (unsigned)g.below(31), b2 = 10 + (unsigned)g.below(31);
@@ -478,6 +560,17 @@ static void gen(const std::string& tier, uint64_t seed) {
         if ((i & 3) == 0) { runv("lenstra", {p * p, Integer(5000), Integer(10)}); runv("lenstra", {p, Integer(5000), Integer(10)}); }
     }
     for (long n = -30; n < (th ? 30000 : 6000); ++n) runv("erat", {Integer((int64_t)n)});
+    {   // the sieve on structured larger arguments (array of n+1 shorts; the int counters are fine far below 2^31): squares and cubes of primes
+        // (the walk ends exactly at i = sqrt n), p*q with close and distant factors, powers of 2 times an odd part, primes, and neighbours
+        std::vector<Integer> er;
+        const unsigned long Q[] = {3, 5, 7, 11, 13, 47, 97, 101, 251, 257, 509, 997, 1009, 1999, 2003};
+        for (unsigned long a : Q) for (unsigned long b : Q) if (a <= b) { er.push_back(Integer((uint64_t)(a * b))); er.push_back(Integer((uint64_t)(a * b + 2))); er.push_back(Integer((uint64_t)(2 * a * b))); }
+        for (unsigned long a : Q) if (a < 160) { er.push_back(pw(Integer((uint64_t)a), 3)); er.push_back(pw(Integer((uint64_t)a), 3) * 4); }
+        for (unsigned e = 1; e <= 22; ++e) { er.push_back(pw(Integer(2), e)); er.push_back(pw(Integer(2), e) + 1); er.push_back(pw(Integer(2), e) - 1); er.push_back(pw(Integer(2), e) * 3); er.push_back(pw(Integer(2), e) * 15); }
+        for (unsigned e = 1; e <= 13; ++e) { er.push_back(pw(Integer(3), e)); er.push_back(pw(Integer(3), e) * 5); er.push_back(pw(Integer(3), e) * 2 + 0); }
+        for (int i = 0; i < (th ? 400 : 60); ++i) { Integer r = rnd_bits(g, 14 + (unsigned)g.below(9)); er.push_back(r); er.push_back(-r); er.push_back(gmp_nextprime(r)); }
+        for (auto& n : er) runv("erat", {n});
+    }
     // ---- the same container-output functions with a pre-filled / reused output container
     {
         std::vector<Integer> light;
